@@ -51,7 +51,22 @@ pub fn c07_configs(thorough: bool) -> Vec<EpCfg> {
                     c.connacks = vec![AckProf::basic(false), AckProf::basic(true), AckProf { rm: Some(1), tam: Some(1), ..AckProf::basic(true) }];
                 }
                 c.groups = vec!["c07"];
-                v.push(c);
+                v.push(c.clone());
+                // both directions at once: outbound QoS 1 / 2 exchanges share the numeric id space with the
+                // inbound ones; completing an outbound exchange must not touch the inbound handled set
+                if auto && (thorough || role != RoleK::Any) {
+                    let mut b = c;
+                    b.name = cfg_name("c07", role, Some(ver), "bidirectional");
+                    b.alph.pub_q = vec![1, 2];
+                    b.alph.peer_pub_q = vec![2];
+                    b.alph.peer_als = vec![];
+                    b.alph.reply_err = false;
+                    b.alph.peer_acks = vec![AckKind::Pubrel, AckKind::Puback, AckKind::Pubrec, AckKind::Pubcomp];
+                    b.alph.peer_ack_ids = vec![1, 2];
+                    b.connects = vec![ConnProf::basic(true), ConnProf::basic(false)];
+                    b.connacks = vec![AckProf::basic(false), AckProf::basic(true)];
+                    v.push(b);
+                }
             }
         }
     }
